@@ -33,6 +33,10 @@ CASES = {
     "Isobaric+CellMove[attempt loop unrolled, max_attempts=2]": dict(driver="quansino.mc.isobaric.Isobaric", move="cell", kw={"pressure": None}, constraints=("FixAtoms",), unroll=2),
     "GrandCanonical[HamiltonianExchangeContext]+ExchangeMove": dict(driver="quansino.mc.gcmc.GrandCanonical", move="exchange", context="quansino.mc.contexts.HamiltonianExchangeContext"),
     "HamiltonianCanonical+HamiltonianDisplacementMove": dict(driver="quansino.mc.canonical.HamiltonianCanonical", move="hamiltonian"),
+    # the user replaces the positions (in place, any values) BETWEEN two runs of one driver; the second run starts, as every run does,
+    # with validate_simulation: the trial under scrutiny must go back to the edited configuration, not to the end of the first run
+    "Canonical+DisplacementMove[second run after the user edited the positions]": dict(driver="quansino.mc.canonical.Canonical", move="disp", constraints=("FixAtoms",), edited_between_runs=True),
+    "Isobaric+CellMove[second run after the user edited the positions]": dict(driver="quansino.mc.isobaric.Isobaric", move="cell", kw={"pressure": None}, constraints=("FixAtoms",), edited_between_runs=True),
 }
 
 
@@ -148,6 +152,10 @@ def build(S, tier, cases=None):
         def run(I, case=case):
             sim, atoms, moves, top = make_sim(I, case)
             run_trials(I, sim, ["m"])                       # an arbitrary first trial
+            if case.get("edited_between_runs"):
+                cur = atoms.arrays["positions"]
+                assign_in_place(cur, SArr.base(I, "edited_by_the_user.positions", cur.n, cur.row, cur.dtype))
+                I.call(I.getattr(sim, "validate_simulation"), [], {})
             snap = snapshot(I, sim, atoms, moves)
             log0 = len(atoms.log)
             hist1 = list(sim.attrs["move_history"])
